@@ -86,6 +86,7 @@ def _judge(ctx, table, progs, origin):
         if nbad > 10:
             continue
         v1, v2 = e["v1"], e["v2"]
+        en = str(e["wit"].get("k", "")).endswith("en")
         t1, t2 = sorted([D.TYPE_OF.get(v1["t"], v1["t"]), D.TYPE_OF.get(v2["t"], v2["t"])])
         w = e["wit"]
         files = {"pair.txt": "Y 0\nT %s\nT %s\n" % key, "witness.json": json.dumps(w, indent=1),
@@ -96,8 +97,9 @@ def _judge(ctx, table, progs, origin):
             files["program.txt"] = K.prog_to_txt(progs[w["pid"] - 1])
         ctx.violation("the checker declares %s and %s independent (depends = %d/%d) but %s" %
                       (s1, s2, d12, d21, "the relation is not symmetric" if problems == ["asymmetric"] else
-                       "the reference semantics has a state where they do not commute (%s view)" % w.get("k", "?")),
-                      files=files, signature="C39:%s:%s:%s" % (t1, t2, D.condition(v1, v2)),
+                       ("the reference semantics has a state where the first one enables the second one (%s view)" if en else
+                        "the reference semantics has a state where they do not commute (%s view)") % w.get("k", "?")),
+                      files=files, signature="C39:%s%s:%s:%s" % ("enables:" if en else "", t1, t2, D.condition(v1, v2)),
                       detail="pair: %s | %s\nproblems: %s\nwitness: %s" % (key[0], key[1], problems, json.dumps(w)))
 
 
@@ -171,7 +173,7 @@ def run(ctx):
             x = json.loads(json.loads(l))
             key = (D.desc_of_view(x["r1"]), D.desc_of_view(x["r2"]))
             e = rtable.setdefault(key, {"commute": True, "v1": x["r1"], "v2": x["r2"], "wit": None})
-            w = {"k": "real", "pid": x["pid"], "execution": x["id"], "step": x["step"],
+            w = {"k": x["k"], "pid": x["pid"], "execution": x["id"], "step": x["step"],
                  "schedule": execs[x["id"] - 1]["sched"]}
             if not x["commute"] and e["commute"]:
                 e["commute"], e["wit"] = False, w
